@@ -1,7 +1,109 @@
-//! thorough tier: runs the coverage guided campaigns of /verif/fuzz and folds the result in
-use crate::FuzzCase;
+//! thorough tier: runs the coverage guided campaigns of /verif/fuzz (`run.sh`) and folds the
+//! result into the outcome. A crash artifact becomes a violation (its signature is recomputed
+//! here, in-process, by the same oracle) and is saved as a replayable `Case::Artifact`.
+
+use crate::shared;
+use crate::{Case, FuzzCase};
 use dv::engine::{Outcome, RunCtx};
 
-pub fn run_fuzz(_f: &FuzzCase, _ctx: &RunCtx, o: &mut Outcome) {
-    o.discard = Some("fuzz-not-wired".into());
+pub fn hex(b: &[u8]) -> String {
+    b.iter().map(|x| format!("{:02x}", x)).collect()
+}
+pub fn unhex(s: &str) -> Vec<u8> {
+    (0..s.len() / 2).filter_map(|i| u8::from_str_radix(&s[2 * i..2 * i + 2], 16).ok()).collect()
+}
+
+/// runs one artifact (or any input of a fuzz target) through the oracle
+pub fn run_artifact(target: &str, bytes: &[u8], o: &mut Outcome) {
+    let (findings, stats) = match target {
+        "parse_texts" => shared::fuzz_parse_texts(bytes),
+        _ => shared::fuzz_wire_decode(bytes),
+    };
+    o.count("artifact_texts", stats.texts);
+    o.nontrivial = stats.passed_grammar > 0 || stats.decoded > 0;
+    for f in findings {
+        o.violation(f.signature, f.detail.replace('\n', "\\n"));
+    }
+}
+
+pub fn run_fuzz(f: &FuzzCase, ctx: &RunCtx, o: &mut Outcome) {
+    if ctx.replay {
+        // a campaign is not a replayable input: its artifacts are (Case::Artifact)
+        o.label("fuzz:campaign-not-replayed");
+        return;
+    }
+    let seed = std::env::var("VERIF_SEED").ok().and_then(|s| s.trim().parse::<i64>().ok()).unwrap_or(0);
+    let mode = if f.seeded { "seeded" } else { "empty" };
+    let out = std::process::Command::new("/verif/fuzz/run.sh")
+        .arg(&f.target)
+        .arg(f.seconds.to_string())
+        .arg(((seed as u64) % 1_000_000 + 1).to_string())
+        .arg(mode)
+        .output();
+    let out = match out {
+        Ok(x) => x,
+        Err(e) => {
+            o.discard = Some(format!("fuzz-run-failed:{}", e));
+            return;
+        }
+    };
+    let stdout = String::from_utf8_lossy(&out.stdout).to_string();
+    let line = stdout.lines().rev().find(|l| l.starts_with("C14-FUZZ")).unwrap_or("").to_string();
+    if line.is_empty() || line.contains("build=failed") {
+        o.discard = Some("fuzz-build-failed".into());
+        o.label("fuzz:build-failed");
+        return;
+    }
+    let field = |k: &str| -> String {
+        line.split_whitespace().find_map(|t| t.strip_prefix(&format!("{}=", k)).map(|s| s.to_string())).unwrap_or_default()
+    };
+    let execs: u64 = field("execs").parse().unwrap_or(0);
+    o.count(&format!("fuzz_execs:{}:{}", f.target, mode), execs);
+    o.count("fuzz_artifacts", field("artifacts").parse().unwrap_or(0));
+    o.count("fuzz_tolerated_signatures", field("tolerated").parse().unwrap_or(0));
+    o.label(format!("fuzz:{}:{}", f.target, mode));
+    o.nontrivial = execs > 0;
+    let dir = field("dir");
+    // tolerated findings: hits of known signatures
+    if let Ok(t) = std::fs::read_to_string(format!("{}/tolerated.txt", dir)) {
+        let mut seen: Vec<String> = Vec::new();
+        for l in t.lines() {
+            if !l.is_empty() && !seen.contains(&l.to_string()) {
+                seen.push(l.to_string());
+                o.violation(l.to_string(), format!("tolerated inside the fuzz target {} ({})", f.target, mode));
+            }
+        }
+    }
+    let mut arts: Vec<std::path::PathBuf> = std::fs::read_dir(&dir)
+        .map(|rd| rd.filter_map(|e| e.ok()).map(|e| e.path()).collect())
+        .unwrap_or_default();
+    arts.sort();
+    for a in arts {
+        let name = a.file_name().map(|n| n.to_string_lossy().to_string()).unwrap_or_default();
+        if !(name.starts_with("crash-") || name.starts_with("timeout-") || name.starts_with("oom-")) || name.ends_with(".sig") {
+            continue;
+        }
+        let bytes = match std::fs::read(&a) {
+            Ok(b) => b,
+            Err(_) => continue,
+        };
+        let before = o.violations.len();
+        if name.starts_with("crash-") {
+            run_artifact(&f.target, &bytes, o);
+        }
+        if o.violations.len() == before {
+            // the in-process oracle sees nothing: keep what the campaign said
+            let sig = std::fs::read_to_string(format!("{}.sig", a.display())).unwrap_or_default();
+            let sig = if sig.trim().is_empty() { format!("crash:unclassified@fuzz.{}", f.target) } else { sig.trim().to_string() };
+            o.violation(sig, format!("libFuzzer artifact {} ({} bytes) not reproduced in-process", a.display(), bytes.len()));
+        }
+        let sig = o.violations.last().map(|v| v.signature.clone()).unwrap_or_default();
+        let detail = o.violations.last().map(|v| v.detail.clone()).unwrap_or_default();
+        // a replayable case of its own
+        let case = Case::Artifact { target: f.target.clone(), hex: hex(&bytes) };
+        let file = serde_json::json!({ "property": "C14", "signature": sig, "detail": detail, "seed": seed, "case": case });
+        let _ = std::fs::create_dir_all("/verif/replays/C14");
+        let short: String = name.chars().take(22).collect();
+        let _ = std::fs::write(format!("/verif/replays/C14/fuzz-{}-{}.json", f.target, short), serde_json::to_string_pretty(&file).unwrap());
+    }
 }
